@@ -47,7 +47,9 @@ class FsMixin:
         m['os.path'].update({'join': E('os.path.join', self.op_join),
                              'split': E('os.path.split', self.op_split),
                              'getsize': E('os.path.getsize', self.op_getsize),
-                             'exists': E('os.path.exists', self.op_exists)})
+                             'exists': E('os.path.exists', self.op_exists),
+                             'expanduser': E('os.path.expanduser', self.op_identity),
+                             'expandvars': E('os.path.expandvars', self.op_identity)})
         om = self.env.obj_methods
         om['file'] = {'write': self.file_write, 'read': self.file_read, 'close': self.file_close,
                       '__enter__': lambda it, o, a, k: o, '__exit__': self.file_exit}
@@ -79,6 +81,10 @@ class FsMixin:
         tail = it.st.fresh('basename', STR)
         self.env.use('os.path.split: some (head, tail) pair (no fact about them is used)')
         return (SV('str', head), SV('str', tail))
+
+    def op_identity(self, it, a, k):
+        self.env.use("os.path.expanduser/expandvars: identity on paths without '~' and '$' (requires)")
+        return a[0]
 
     def op_getsize(self, it, a, k):
         w = fs(it.st)
